@@ -324,6 +324,19 @@ def ownership_sites(prog):
                         if len(uses) > iters:
                             return ("shared", f"`{owner_name}` is used again in the same result")
                     return ("moved", f"each element of `{root_owner}` is used for exactly one new term")
+                if comp is not None and pinfo is None and isinstance(a, ast.Name):
+                    # the operand is the loop variable of the comprehension itself: [C(v, ...) for v in ITER (for w in OTHER)]
+                    tg = {g.target.id: g for g in comp.generators if isinstance(g.target, ast.Name)}
+                    if a.id in tg:
+                        rest = [g for g in comp.generators if g is not tg[a.id]]
+                        multi = [g for g in rest if not (isinstance(g.iter, ast.List) and len(g.iter.elts) == 1)]
+                        if multi:
+                            return ("shared", f"`{src}`: the operand is paired with every element of `{unparse(multi[0].iter)}`, "
+                                              "so one object ends up in several terms")
+                        uses_in_elt = [x for x in ast.walk(comp.elt) if isinstance(x, ast.Name) and x.id == a.id]
+                        if len(uses_in_elt) > 1:
+                            return ("shared", f"`{src}` is used {len(uses_in_elt)} times in one element of the comprehension")
+                        return ("moved", f"each element of `{unparse(tg[a.id].iter)}` is used for exactly one new term")
                 if comp is not None and pinfo is None:
                     # comprehension that does not iterate a product: owner constant across iterations?
                     tgt_names = {n.id for g in comp.generators for n in ast.walk(g.target) if isinstance(n, ast.Name)}
